@@ -344,7 +344,7 @@ fn main() {
                 // mixed backends: Vec against VecDeque (the first series decides the body)
                 if rng.chance(1, 6) {
                     em.case(&cmp, &tags("f64", "vec_x_deque"), &desc("f64", "vec_x_deque"), || term("ff", true, &a_coq, &b_coq),
-                        || { let db: VecDeque<f64> = b.iter().cloned().collect();
+                        || { let db: VecDeque<f64> = vh::wrapped_deque(b);
                              out_cells(guarded(|| call2!(fi_, a, &db, w, mp, Vec<f64>))) });
                 }
                 // Option<f64> x Option<f64> -> Option<f64>
@@ -359,7 +359,7 @@ fn main() {
                 }
                 if rng.chance(1, 6) {
                     em.case(&cmp, &tags("optf64_x_f64", "deque"), &desc("optf64_x_f64", "deque"), || term("of", false, &ao_coq, &b_coq),
-                        || { let da: VecDeque<Option<f64>> = ao.iter().cloned().collect();
+                        || { let da: VecDeque<Option<f64>> = vh::wrapped_deque(&ao);
                              out_cells(guarded(|| call2!(fi_, da, b, w, mp, Vec<f64>))) });
                 }
                 // f32 output
@@ -429,7 +429,7 @@ fn main() {
                     || out_cells(guarded(|| call1!(fi_, xs, w, mp, Vec<f64>))));
                 if small || rng.chance(1, 2) {
                     em.case(&cmp, &tags("f64", "deque"), &desc("f64", "deque"), || term("f", false, &xs_coq),
-                        || { let d: VecDeque<f64> = xs.iter().cloned().collect();
+                        || { let d: VecDeque<f64> = vh::wrapped_deque(xs);
                              out_cells(guarded(|| call1!(fi_, d, w, mp, Vec<f64>))) });
                 }
                 if rng.chance(1, 3) {
@@ -438,7 +438,7 @@ fn main() {
                 }
                 if rng.chance(1, 4) {
                     em.case(&cmp, &tags("f64", "deque_to"), &desc("f64", "deque_to"), || term("f", true, &xs_coq),
-                        || { let d: VecDeque<f64> = xs.iter().cloned().collect();
+                        || { let d: VecDeque<f64> = vh::wrapped_deque(xs);
                              out_cells(guarded(|| call1_to!(fi_, d, w, mp))) });
                 }
                 if rng.chance(1, 3) {
